@@ -31,12 +31,12 @@ def call_unary(env, kind, n, mname, idx, inplace):
     outs = it.call_body(K.method(mname), [p] + [usize(x) for x in idx], st, K.env(n))
     o, v, d = single_return(outs)
     if o is None:
-        return v, d, None, None
+        return v, d, None, None, ()
     after = bits_of_table(K.words(it, o.state, it.read_ptr(o.state, p)), n)
     if inplace:
-        return PROVED, "", after, after
+        return PROVED, "", after, after, o.pc
     res = bits_of_table(K.words(it, o.state, o.value), n)
-    return PROVED, "", res, after
+    return PROVED, "", res, after, o.pc
 
 
 def run(chk):
@@ -58,11 +58,11 @@ def run(chk):
                 for mname, inplace in (("flip_inplace", True), ("flip", False)):
                     key = "%s::%s n=%d i=%d" % (K.adt, mname, n, i)
                     try:
-                        v, d, res, after = call_unary(env, kind, n, mname, [i], inplace)
+                        v, d, res, after, pc = call_unary(env, kind, n, mname, [i], inplace)
                         if v == PROVED:
-                            v, d = compare_bits(res, S.flip(n, i))
+                            v, d = compare_bits(res, S.flip(n, i), pc)
                             if v == PROVED and not inplace:
-                                v, d = compare_bits(after, S.identity(n))
+                                v, d = compare_bits(after, S.identity(n), pc)
                                 d = d and "receiver modified: " + d
                     except Undecided as e:
                         v, d = UNDECIDED, e.cause
@@ -78,11 +78,11 @@ def run(chk):
                             continue  # copying form = clone + in-place (checked for half the pairs in quick)
                         key = "%s::%s n=%d i=%d j=%d" % (K.adt, mname, n, i, j)
                         try:
-                            v, d, res, after = call_unary(env, kind, n, mname, [i, j], inplace)
+                            v, d, res, after, pc = call_unary(env, kind, n, mname, [i, j], inplace)
                             if v == PROVED:
-                                v, d = compare_bits(res, S.swap(n, i, j))
+                                v, d = compare_bits(res, S.swap(n, i, j), pc)
                                 if v == PROVED and not inplace:
-                                    v, d = compare_bits(after, S.identity(n))
+                                    v, d = compare_bits(after, S.identity(n), pc)
                                     d = d and "receiver modified: " + d
                         except Undecided as e:
                             v, d = UNDECIDED, e.cause
@@ -96,11 +96,11 @@ def run(chk):
                 for mname, inplace in (("swap_adjacent_inplace", True), ("swap_adjacent", False)):
                     key = "%s::%s n=%d i=%d" % (K.adt, mname, n, i)
                     try:
-                        v, d, res, after = call_unary(env, kind, n, mname, [i], inplace)
+                        v, d, res, after, pc = call_unary(env, kind, n, mname, [i], inplace)
                         if v == PROVED:
-                            v, d = compare_bits(res, S.swap(n, i, i + 1))
+                            v, d = compare_bits(res, S.swap(n, i, i + 1), pc)
                             if v == PROVED and not inplace:
-                                v, d = compare_bits(after, S.identity(n))
+                                v, d = compare_bits(after, S.identity(n), pc)
                                 d = d and "receiver modified: " + d
                     except Undecided as e:
                         v, d = UNDECIDED, e.cause
@@ -119,11 +119,11 @@ def run(chk):
                         c0, c1 = o.value.fields
                         b0 = bits_of_table(K.words(it, o.state, c0), n)
                         b1 = bits_of_table(K.words(it, o.state, c1), n)
-                        v, d = compare_bits(b0, S.cofactor0(n, i))
+                        v, d = compare_bits(b0, S.cofactor0(n, i), o.pc)
                         if v == PROVED:
-                            v, d = compare_bits(b1, S.cofactor1(n, i))
+                            v, d = compare_bits(b1, S.cofactor1(n, i), o.pc)
                         if v == PROVED:
-                            v, d = compare_bits(bits_of_table(K.words(it, o.state, it.read_ptr(o.state, p)), n), S.identity(n))
+                            v, d = compare_bits(bits_of_table(K.words(it, o.state, it.read_ptr(o.state, p)), n), S.identity(n), o.pc)
                             d = d and "receiver modified: " + d
                         if v == PROVED:
                             # Shannon recomposition of the two results gives back f
@@ -131,7 +131,7 @@ def run(chk):
                             outs2 = it.call_body(K.method("from_cofactors"), [p0, p1, usize(i)], o.state, K.env(n))
                             o2, v, d = single_return(outs2)
                             if o2 is not None:
-                                v, d = compare_bits(bits_of_table(K.words(it, o2.state, o2.value), n), S.identity(n))
+                                v, d = compare_bits(bits_of_table(K.words(it, o2.state, o2.value), n), S.identity(n), o2.pc)
                                 d = d and "from_cofactors(cofactors(f)) != f: " + d
                 except Undecided as e:
                     v, d = UNDECIDED, e.cause
@@ -145,7 +145,7 @@ def run(chk):
                     outs = it.call_body(K.method("from_cofactors"), [p0, p1, usize(i)], st, K.env(n))
                     o, v, d = single_return(outs)
                     if o is not None:
-                        v, d = compare_bits(bits_of_table(K.words(it, o.state, o.value), n), S.from_cofactors(n, i))
+                        v, d = compare_bits(bits_of_table(K.words(it, o.state, o.value), n), S.from_cofactors(n, i), o.pc)
                 except Undecided as e:
                     v, d = UNDECIDED, e.cause
                 chk.add("C03.from_cofactors", key, v, d, where=where_of(K.method("from_cofactors")))
